@@ -270,7 +270,7 @@ macro_rules! exec_rational {
                 }
                 "fromfloat" => {
                     let f = &w.f[a];
-                    if !f.repr().is_finite() || f.repr().exponent().abs() > 2000 {
+                    if !f.repr().is_finite() || f.repr().exponent().unsigned_abs() > 2000 {
                         return env.skip();
                     }
                     if let Ok(v) = <$T>::try_from(f.clone()) {
